@@ -15,6 +15,8 @@ fi
 if [ "$1" = "quiet" ]; then
   out=$(timeout 3000 make -k -j16 2>&1) || { echo "$out" | tail -80; exit 2; }
 else
-  timeout 3000 make -k -j16 || exit 2
+  # a file that does not compile makes the checks that depend on it fail their own obligations;
+  # the remaining properties stay checkable, so the set-up itself does not fail
+  timeout 3000 make -k -j16 || echo "setup.sh: WARNING some static Coq files did not compile (see above)"
 fi
 exit 0
